@@ -14,7 +14,7 @@ Does not decide that real blocks carry correct tables, an in-range primary index
 arithmetic), nor that libbz2 decodes them."""
 import cfg, conc, rules, witness, codecrules
 from frag import Frag, Ptr, Unknown
-from irdb import broken, reg_var_names, enumerators
+from irdb import broken, reg_var_names, enumerators, var_roles
 from prov import Prov, strip_casts, strip_ext, addr_key, path_key, render, poly, peel_cond, cmp_norm
 from props import c03, c15
 
@@ -171,6 +171,9 @@ def collect_rules(ctx, prog):
     f = prog.func('encode', 'collect')
     P = Prov(prog, f)
     names = reg_var_names(f)
+    roles = var_roles(f, P)
+    P_NAME = roles.get('param:inbuf', 'p')          # the input cursor: the local initialised from `inbuf`
+    CRC_NAME = roles.get('.block_crc', 'crc')       # the accumulator: the local initialised from s->block_crc
     nb = 0
     bad = []
     unget = []
@@ -180,8 +183,7 @@ def collect_rules(ctx, prog):
         adv = []
         for i in bl.insns:
             if i.op == 'getelementptr' and len(i.ops) == 2 and i.ops[1][0] == 'int' and i.ops[0][0] == 'reg' and \
-                    names.get(i.ops[0][1]) == 'p' and i.ty is None or (i.op == 'getelementptr' and len(i.ops) == 2 and
-                    i.ops[1][0] == 'int' and i.ops[0][0] == 'reg' and names.get(i.ops[0][1]) == 'p'):
+                    names.get(i.ops[0][1]) == P_NAME:
                 adv.append(i.ops[1][1])
         if not folds and not adv:
             continue
@@ -223,7 +225,7 @@ def collect_rules(ctx, prog):
         out = None
         for s in ub.succs:
             for i in f.blocks[s].insns:
-                if i.op == 'phi' and names.get(i.res) == 'crc':
+                if i.op == 'phi' and names.get(i.res) == CRC_NAME:
                     for v, src in i.extra['incoming']:
                         if src == ub.name:
                             out = strip_casts(P.expr(v))
@@ -322,21 +324,32 @@ def dummy_table(ctx, prog):
         if t.op == 'br' and len(t.extra['targets']) == 2:
             c, pol = peel_cond(P.expr(t.ops[0]))
             cn = cmp_norm(c)
-            if cn and cn[0] == 'eq' and cn[2] == ('const', 1) and strip_casts(cn[1])[0] == 'phi' and \
-                    names.get(strip_casts(cn[1])[1]) == 'nt':
-                start = t.extra['targets'][0 if pol else 1]
+            if cn and cn[0] == 'eq' and cn[2] == ('const', 1) and strip_casts(cn[1])[0] == 'phi':
+                cand = t.extra['targets'][0 if pol else 1]
+                # the "only one table" branch: its region stores code lengths (bytes) in a loop
+                reg = {bn for bn in f.blocks if bn in dom and cand in dom[bn]}
+                if any(i.op == 'store' and i.extra.get('vty') == ('int', 8) for bn in reg for i in f.blocks[bn].insns):
+                    start = cand
     ctx.require(start is not None, 'generate_prefix_code(): the `nt == 1` branch (dummy second table) vanished')
     region = {bn for bn in f.blocks if bn in dom and start in dom[bn]}
-    as_regs = [r for r, n in names.items() if n == 'as' and r in f.defs]
-    ctx.require(as_regs, 'generate_prefix_code(): local `as` not found')
+    # the alphabet size: last MTF value + 1, computed once at the top of the function
+    as_regs = []
+    for r, d in f.defs.items():
+        if d.op == 'add' and d.block is f.entry and d.ops[1] == ('int', 1):
+            e = strip_casts(P.expr(d.ops[0]))
+            if e[0] == 'load' and d.ty == ('int', 32):
+                as_regs.append(r)
+    ctx.require(len(as_regs) == 1, 'generate_prefix_code(): alphabet size (last MTF value + 1) not found')
     bad = []
     unknown = []
     n = 0
     for asz in range(3, 259):
         n += 1
         regs = {r: asz for r in as_regs}
-        for r, nm in names.items():
-            if nm == 'cost' and r in f.defs and f.defs[r].op == 'phi':
+        # values carried into the region by merges outside it (the running cost) do not influence the code
+        # lengths: give them a neutral value
+        for r, d in f.defs.items():
+            if d.op == 'phi' and d.block.name not in region and d.ty == ('int', 32) and r not in regs:
                 regs[r] = 0
         asked = []
 
